@@ -462,6 +462,45 @@ fn ev_fmt<F: Fx>(c: &mut Ctx, raw: u128, kind: &str, p: Option<usize>, w: usize,
     c.wr.end();
 }
 
+/// floor(num / den * 2^128) for num < den < 2^126, by binary long division
+fn frac_bits128(num: u128, den: u128) -> u128 {
+    let (mut rem, mut q) = (num, 0u128);
+    for i in 0..128 {
+        rem <<= 1;
+        if rem >= den { rem -= den; q |= 1u128 << (127 - i); }
+    }
+    q
+}
+/// patterns of layout l next to short decimals (0.1 .. 0.9, 0.25, 3.14, 2.6, ...) and next to the carry class of the
+/// 128-bit decimal code (see carry_literals): the values whose shortest decimal form matters most
+fn decimal_neighbours(l: Lay) -> Vec<u128> {
+    let mut v = vec![];
+    let top = if l.s { l.w - 1 } else { l.w };
+    let mut add = |ip: u128, fb: u128| {
+        // value ip + fb / 2^128 in layout l (truncated), and its two neighbours
+        let frac = if l.f == 0 { 0 } else { fb >> (128 - l.f) };
+        let int = if l.f >= 128 { 0 } else { ip << l.f };
+        let bits = int.wrapping_add(frac);
+        if l.f < 128 && (ip >> (top - l.f.min(top)).min(127)) != 0 && l.f < top { return; }
+        for d in [0u128, 1, 2] {
+            let b = bits.wrapping_add(d);
+            if b <= mask(top) { v.push(b); if l.s { v.push(b.wrapping_neg() & mask(l.w)); } }
+        }
+    };
+    for (ip, num, den) in [(0u128, 1u128, 10u128), (0, 2, 10), (0, 3, 10), (0, 4, 10), (0, 6, 10), (0, 7, 10), (0, 8, 10), (0, 9, 10), (0, 1, 4), (0, 5, 100),
+                           (3, 14, 100), (2, 6, 10), (1, 7, 10), (0, 1, 3), (0, 999, 1000), (12, 8, 10), (0, 1, 1000), (7, 77, 100)] {
+        add(ip, frac_bits128(num, den));
+    }
+    if l.w == 128 && l.f >= 90 {
+        for lit in carry_literals().iter().step_by(4) {
+            // the literal is "0." + 27 digits + tail: take the 27-digit prefix H
+            let h: u128 = std::str::from_utf8(&lit[2..29]).ok().and_then(|t| t.parse().ok()).unwrap_or(0);
+            add(0, frac_bits128(h, 10u128.pow(27)));
+        }
+    }
+    v
+}
+
 fn run_fmt<F: Fx>(c: &mut Ctx) {
     if !c.on("fmt") { return; }
     let l = F::lay();
@@ -481,12 +520,21 @@ fn run_fmt<F: Fx>(c: &mut Ctx) {
         for k in 0..12u32 { v.push((1u128 << (k * (l.w - 1) / 12)) & mask(l.w)); }
         v
     };
+    // neighbours of short decimals / of the carry class: decimal output only (plus one hexadecimal)
+    let base_len = vals.len();
+    let mut vals = vals;
+    if !c.light && l.w > 8 { vals.extend(decimal_neighbours(l)); }
     let dprecs: &[Option<usize>] = if c.light { &[None, Some(2), Some(20)] } else if c.thorough() { &[None, Some(0), Some(1), Some(2), Some(3), Some(5), Some(8), Some(10), Some(20), Some(40), Some(200)] }
                                    else { &[None, Some(0), Some(1), Some(3), Some(8), Some(20)] };
     let rprecs: &[Option<usize>] = if c.light { &[None] } else if c.thorough() { &[None, Some(0), Some(1), Some(2), Some(4), Some(9), Some(130)] } else { &[None, Some(1), Some(3)] };
     for (i, &raw) in vals.iter().enumerate() {
         let pick = rng.next();
         let w = [0usize, 3, 7, 12, 40][(pick % 5) as usize];
+        if i >= base_len {
+            for p in [None, Some(3), Some(30)] { ev_fmt::<F>(c, raw, "d", p, w, pick); }
+            if i % 4 == 0 { ev_fmt::<F>(c, raw, "x", None, w, pick); }
+            continue;
+        }
         for &p in dprecs { ev_fmt::<F>(c, raw, "d", p, w, pick); }
         ev_fmt::<F>(c, raw, "g", None, w, pick);
         ev_fmt::<F>(c, raw, "g", Some(2), w, pick);
